@@ -63,7 +63,7 @@ def template_source(prog, chk):
     ge = R.calls_to(ru, lambda c: c.decl_path == "svgdx::context::ElementMap::get_element")
     for k, (b, t, c) in enumerate(ge):
         where = ru.where(b, t.get("line"))
-        uses = _payload_uses(ru, t["dest"][0])
+        uses = _payload_uses(ru, t["dest"][0], prog.bodies)
         bad = [u for u in uses if u != ".content_bbox"]
         chk.ob(
             not bad,
@@ -157,8 +157,9 @@ def template_source(prog, chk):
         )
 
 
-def _payload_uses(body, opt_local):
+def _payload_uses(body, opt_local, body_prog_bodies=None):
     """field projections read from the Some payload of an Option<&SvgElement> local (through copies)"""
+    body_prog_bodies = body_prog_bodies or {}
     uses = []
     work = [opt_local]
     seen = set()
@@ -179,6 +180,20 @@ def _payload_uses(body, opt_local):
                     if c.decl_path == "std::ops::Try::branch":
                         work.append(node["dest"][0])
                         continue
+                    if last in ("map", "and_then", "map_or", "is_some_and", "filter") and "Option" in c.path and len(node.get("args", [])) >= 2:
+                        # `.map(|el| el.content_bbox)`: what the closure reads of its parameter
+                        cid = R.closure_id_of_operand(body, node["args"][-1])
+                        cb = body_prog_bodies.get(cid) if cid is not None else None
+                        if cb is not None:
+                            for x2, i2, st2 in cb.all_stmts():
+                                rv2 = st2.get("rv") or {}
+                                for o2 in [rv2.get("op"), rv2.get("a"), rv2.get("b")] + list(rv2.get("ops", [])) + ([{"c": rv2["place"]}] if rv2.get("k") in ("ref", "discr") and rv2.get("place") else []):
+                                    pl2 = op_place(o2) if isinstance(o2, dict) else None
+                                    if pl2 is not None and pl2[0] == 2:
+                                        f2 = [z for z in pl2[1] if str(z).startswith(".")]
+                                        uses.append(str(f2[0]) if f2 else "whole")
+                            uses[:] = [u for u in uses if u != "whole"] or uses
+                            continue
                     uses.append("call:" + c.path)
                 continue
             rv = node.get("rv")
